@@ -153,3 +153,16 @@ Proof.
   - apply bind_nofuel; [apply jindex_nofuel|]. intros _ _.
     apply bind_nofuel; [apply jindex_nofuel|]. intros _ _. apply nofuel_raise. discriminate.
 Qed.
+
+(* a node kind nobody registered: get_tree raises the TypeError that names it (C08) *)
+Theorem get_tree_unregistered E proto fuel extra sl m j l sid hk pk cm cc :
+  jget j (K "__id__") = Ok sid -> jhash sid = Ok hk -> memo_mem hk m = false ->
+  jindex j (K "__loader__") = Ok (JStr l) -> jhash proto = Ok pk ->
+  (forall pk', find (e_reg E) l pk' = None) ->
+  jindex j (K "__module__") = Ok cm -> jindex j (K "__class__") = Ok cc ->
+  get_tree (S fuel) E proto extra sl m j = Raise (ENoLoader l).
+Proof.
+  intros H1 H2 H3 H4 H5 H6 H7 H8. cbn [get_tree]. rewrite H1. cbn [bind]. rewrite H2. cbn [bind]. rewrite H3.
+  rewrite H4. cbn [bind]. unfold dispatch. cbn [jhash bind]. rewrite H5. cbn [bind].
+  unfold lookup. rewrite !H6. cbn [bind]. rewrite H7. cbn [bind]. rewrite H8. cbn [bind]. reflexivity.
+Qed.
